@@ -2,10 +2,11 @@
    Statements only.  Round-trip lemmas of the object model, constructor by constructor; the witnesses of the known
    findings (F4a3, F4b) as refutations computed on the model over the REGENERATED tables.  The induction that glues the
    constructor lemmas together over the whole grammar is proved for the DESCRIPTION level (describe_then_rebuild: what parse
-   shows for a stable tree is read back by create as the same tree); the byte level (from_cbor after to_cbor) is not, and the
-   round trip of whole envelopes is decided by the differential check on every run. *)
+   shows for a stable tree is read back by create as the same tree) and for the BYTE level (encode_then_parse: the bytes create
+   writes for a byte-stable tree are parsed back into that tree), and both are chained (created_bytes_round_trip); the round
+   trip of whole envelopes (digest steps, merged payload / text members) is decided by the differential check on every run. *)
 Require Import Coq.Strings.String.
-From Verif Require Import Base.Prim Base.Str Cbor.Codec Suit.Py Suit.PyFacts Suit.Ty Suit.Interp Suit.Tables Suit.Roundtrip Suit.Reparse Suit.Typed Suit.Stable Cbor.CodecFacts gen.GenTypes.
+From Verif Require Import Base.Prim Base.Str Cbor.Codec Suit.Py Suit.PyFacts Suit.Ty Suit.Interp Suit.Tables Suit.Roundtrip Suit.Reparse Suit.Typed Suit.Stable Suit.ByteTrip Cbor.CodecFacts gen.GenTypes.
 Open Scope Z_scope.
 
 Theorem int_roundtrip env jd c f g : normal c -> check_int c = true ->
@@ -70,6 +71,56 @@ Theorem parse_then_create env hn H u5 fs jl jd sev sprep sp sd f b o v :
   = (let* e2 := apply_steps env hn H sev (fun t' v' => to_cbor env f t' v') (s2b "SuitEnvelopeTagged") sprep v in to_cbor env f (TRef (s2b "SuitEnvelopeTagged")) e2).
 Proof. intros Hfc Hst Hp. exact (Reparse.parse_then_create env hn H u5 fs jl jd sev sp sd sprep f _ b o v Hfc Hst Hp eq_refl). Qed.
 Print Assumptions parse_then_create.
+
+(* BYTE LEVEL.  For every type table, budget and BYTE-STABLE tree (Suit/ByteTrip.v, bst: leaves hold normal values of the right
+   kind, each known map key once, tuples with the number of members their member list allows, at a union node the alternatives
+   tried before the encoded one reject the encoded bytes; not covered: merged payload / text members, bit fields with members):
+   what the encoder writes is the serialisation of ONE normal item, the decoder accepts it, and the parser rebuilds exactly the
+   tree that was encoded — no member dropped, duplicated, reordered or re-typed on the way through bytes. *)
+Theorem encoder_output_decodes env jd f t v b : bst env jd t v -> to_cbor env f t v = Ok b -> exists c, normal c /\ dec b = Ok c /\ ser c = b.
+Proof. exact (ByteTrip.encoder_output_decodes env jd f t v b). Qed.
+Print Assumptions encoder_output_decodes.
+
+Theorem encode_then_parse env jd f t v b :
+  bst env jd t v -> to_cbor env f t v = Ok b -> (forall bb, b <> ser (CBytes bb)) -> from_cbor env jd f t b = Ok v.
+Proof. exact (ByteTrip.encode_then_parse env jd f t v b). Qed.
+Print Assumptions encode_then_parse.
+
+(* the two levels chained — the statement of the property for one class of the grammar: bytes written by create for a tree that is
+   stable at both levels are parsed, shown, read back and encoded again to THE SAME BYTES *)
+Theorem created_bytes_round_trip env hn H u5 fs jl jd sev sp sd f t v b :
+  bst env jd t v -> st env hn H u5 fs jl jd sev sp sd t v -> to_cbor env f t v = Ok b -> (forall bb, b <> ser (CBytes bb)) ->
+  forall o, (let* v1 := from_cbor env jd f t b in to_obj env f t v1) = Ok o ->
+  (let* v2 := from_obj env hn H u5 fs jl jd sev sp sd f t o in to_cbor env f t v2) = Ok b.
+Proof.
+  intros Hb Hs Hgo Hnb o Ho. rewrite (ByteTrip.encode_then_parse env jd f t v b Hb Hgo Hnb) in Ho. cbn [bind] in Ho.
+  rewrite (Reparse.describe_then_rebuild env hn H u5 fs jl jd sev sp sd f t v o Hs Ho). cbn [bind]. exact Hgo.
+Qed.
+Print Assumptions created_bytes_round_trip.
+
+(* non-vacuity: a digest tuple of the regenerated table is byte-stable; its encoding is parsed back *)
+Example digest_tuple_byte_stable jd :
+  bst types jd (TRef (s2b "SuitDigestRaw")) (VSeq [VRaw (CText (s2b "cose-alg-sha-256")); VRaw (CBytes [1; 2])])
+  /\ (let* b := to_cbor types 6 (TRef (s2b "SuitDigestRaw")) (VSeq [VRaw (CText (s2b "cose-alg-sha-256")); VRaw (CBytes [1; 2])]) in
+      from_cbor types jd 6 (TRef (s2b "SuitDigestRaw")) b) = Ok (VSeq [VRaw (CText (s2b "cose-alg-sha-256")); VRaw (CBytes [1; 2])]).
+Proof.
+  split; [|vm_compute; reflexivity].
+  eapply b_ref; [vm_compute; reflexivity|]. apply b_tuple.
+  - constructor.
+    + cbn [map fst]. repeat constructor; cbn [In]; intuition discriminate.
+    + vm_compute. reflexivity.
+    + intros k ft Hl _. left. vm_compute in Hl. injection Hl as <- _. vm_compute. reflexivity.
+  - split; [cbn; lia|]. split; [intros; reflexivity|discriminate].
+  - reflexivity.
+  - intros j x Hj. destruct j as [|[|j]]; cbn [nth_error] in Hj; try (destruct j; discriminate Hj); injection Hj as <-.
+    + eexists. split; [vm_compute; reflexivity|]. eapply b_ref; [vm_compute; reflexivity|].
+      apply (b_enum types jd _ _ (-16)).
+      * vm_compute. auto.
+      * cbn [map fst]. repeat constructor; cbn [In]; intuition discriminate.
+      * cbn [map snd]. repeat constructor; cbn [In]; intuition discriminate.
+      * intros n i Hin. cbn [In] in Hin. destruct Hin as [E|[E|[E|[E|[E|[]]]]]]; injection E as _ <-; lia.
+    + eexists. split; [vm_compute; reflexivity|]. eapply b_ref; [vm_compute; reflexivity|]. apply b_hex. reflexivity.
+Qed.
 
 (* every tree the parser builds from a string of real bytes meets the SYNTACTIC conditions of stability (pst: scalars of the right
    kind, byte strings of real bytes, named tuples with the values their member list allows, no repeated members, pairwise different
